@@ -1,7 +1,7 @@
 (* NetworkSrc.v — network.Driver.determineCurrentPriv as the source has it on this run (translated
    statement by statement, with its range loop and its `continue`) computes the model's
    Network.determine_current, for every level map, every iteration order and every prompt (C04). *)
-From Scrapli Require Import Bytes Regex PlatformTypes Generated Channel Network DecideLang GeneratedSkel DecideLoops.
+From Scrapli Require Import Bytes Regex PlatformTypes Generated Channel Network DecideLang GeneratedSkel DecideLemmas.
 From Coq Require Import String List Bool Arith Lia.
 Import ListNotations.
 Open Scope nat_scope.
@@ -216,4 +216,10 @@ Definition ns_table_ok : bool :=
     [true; false]) [true; false]) [true; false].
 
 Theorem net_send_is_source : ns_table_ok = true.
+Proof. vm_compute. reflexivity. Qed.
+
+(* every test the translated code makes is one the environment above was written for (an unknown
+   equality would otherwise evaluate to false without notice) *)
+Definition net_send_known : list string := "d.CurrentPriv == d.DefaultDesiredPriv" :: "targetPriv == """"" :: "err == nil" :: nil.
+Lemma net_send_tests_known : tests_known (net_send_command_code ++ net_send_commands_code ++ net_send_configs_code)%list net_send_known = true.
 Proof. vm_compute. reflexivity. Qed.
